@@ -61,7 +61,7 @@ def build(race=False):
     # the race detector needs cgo; the plain binary is built without it so that it runs under a
     # small address-space limit (ulimit -v) without pthread_create failures
     env["CGO_ENABLED"] = "1" if race else "0"
-    p = subprocess.run(cmd, cwd=HARNESS, env=env, stdout=subprocess.PIPE, stderr=subprocess.STDOUT, text=True)
+    p = subprocess.run(cmd, cwd=HARNESS, env=env, stdout=subprocess.PIPE, stderr=subprocess.STDOUT, text=True, errors="replace")
     if p.returncode != 0:
         log("BUILD FAILED (%s)" % " ".join(cmd))
         log(p.stdout[-6000:])
@@ -112,7 +112,7 @@ def run_replays(binary, pid, files=None, dir_=None, timeout=600):
             env["VERIF_REPLAY"] = f
         try:
             p = subprocess.run(with_ulimit([binary, "-test.run", "^TestReplay$", "-test.timeout", "%ds" % timeout], cfg, binary), cwd=os.path.join(HARNESS, "props"),
-                               env=env, stdout=subprocess.PIPE, stderr=subprocess.STDOUT, text=True, timeout=timeout + 30)
+                               env=env, stdout=subprocess.PIPE, stderr=subprocess.STDOUT, text=True, errors="replace", timeout=timeout + 30)
             out = p.stdout
         except subprocess.TimeoutExpired as e:
             out = (e.stdout or b"").decode("utf8", "replace") if isinstance(e.stdout, bytes) else (e.stdout or "")
@@ -222,7 +222,7 @@ def run_fuzz(pid, cfg, tier, outdir, notes):
                "-parallel", str(NCPU), "-test.fuzzcachedir", cache]
         t0 = time.time()
         try:
-            p = subprocess.run(cmd, cwd=HARNESS, env=env, stdout=subprocess.PIPE, stderr=subprocess.STDOUT, text=True, timeout=secs + 600)
+            p = subprocess.run(cmd, cwd=HARNESS, env=env, stdout=subprocess.PIPE, stderr=subprocess.STDOUT, text=True, errors="replace", timeout=secs + 600)
             out = p.stdout
             rc = p.returncode
         except subprocess.TimeoutExpired:
@@ -427,4 +427,10 @@ def main():
 
 
 if __name__ == "__main__":
-    sys.exit(main())
+    try:
+        rc = main()
+    except Exception:  # an internal error of the driver is inconclusive, never a violation
+        import traceback
+        traceback.print_exc()
+        rc = 2
+    sys.exit(rc)
